@@ -54,6 +54,10 @@ def jsonable(x):
 
 
 def close(a, b, rtol=1e-4, atol=1e-6):
+    if a == b:
+        return True          # also equal infinities
+    if a != a and b != b:
+        return True          # both NaN (0/0 in both computations)
     return abs(a - b) <= atol + rtol * max(abs(a), abs(b))
 
 
